@@ -53,9 +53,12 @@ Record config := mkCfg {
   c_prio_of : N -> N;            (* PriorityManager::get_priority, as an index *)
   c_discardable : N -> bool;     (* PriorityManager::is_discardable *)
   c_shutdown_worker_queues : bool;
-  c_flush_backlog : bool }.
+  c_flush_backlog : bool;
+  c_sticky_pending : bool }.
     (* true = the code after `fix: report jobs queued on workers to the discard handler when the
        factory stops` (F4); false = the rule before it, kept for the refutation witness.
+       c_sticky_pending: true = sticky routing keeps a key with the worker that has it PENDING (queue or in
+       flight; fix 36a533a, F11); false = only with the worker that has it in flight, the rule before it.
        c_flush_backlog: true = a growing pool of a worker-queueing router hands the WHOLE factory-queue
        backlog to the workers (F8 fix); false = at most pool_size jobs, the rule before it *)
 
@@ -429,14 +432,15 @@ Definition choose_target (c : config) (k : N) (hint : option N) (w : world) : op
       | None => from_deque w
       end
   | RSticky =>
+      let with_key p := if c_sticky_pending c then has_pending p k else is_processing p k in
       let hinted_processing :=
         match hint with
-        | Some h => match lookup h (pool w) with Some p => is_processing p k | None => false end
+        | Some h => match lookup h (pool w) with Some p => with_key p | None => false end
         | None => false
         end in
       if hinted_processing then (hint, w)
       else
-        match find_worker (fun p => is_processing p k) (pool w) with
+        match find_worker with_key (pool w) with
         | Some wid => (Some wid, w)
         | None =>
             match hint with
